@@ -36,7 +36,7 @@ Qed.
 
 Section DispatchProofs.
 Variable mro : cls -> list cls.
-Variable accepts : pd -> cls -> bool.
+Variable accepts : pd -> nat -> bool.
 Hypothesis mro_head : forall c, exists tl, mro c = c :: tl.
 
 (** the abstraction: a deferred entry is always the newest registration *)
@@ -202,7 +202,7 @@ Qed.
 Definition sobs (s : sstate) (o : dop) : dobs :=
   match o with
   | RegClass _ _ | RegName _ _ | RegPred _ _ => OUnit
-  | Print c => OChosen (schosen mro accepts s c)
+  | Print c i => OChosen (schosen mro accepts s c i)
   | IsReg c cs cd rd =>
       if negb cd && rd then OBool None else OBool (Some (sisreg mro s c cs))
   end.
@@ -223,7 +223,7 @@ Lemma step_refines st s o :
   Inv st s -> cd_query o = true ->
   fst (dstep mro accepts st o) = sobs s o /\ Inv (snd (dstep mro accepts st o)) (sstep s o).
 Proof.
-  intros [Ha Hp] Hq. destruct o as [c p|c p|q p|c|c cs cd rd]; cbn [dstep sobs sstep fst snd].
+  intros [Ha Hp] Hq. destruct o as [c p|c p|q p|c i|c cs cd rd]; cbn [dstep sobs sstep fst snd].
   - split; [reflexivity|]. split; [|exact Hp]. intros x. unfold absmap, reg_class. cbn [d_reg d_dfr s_latest].
     destruct (Nat.eq_dec x c) as [->|Hne].
     + now rewrite alookup_aremove_same, !alookup_aupdate_same.
